@@ -2040,7 +2040,7 @@ func init() {
 
 func init() {
 	register(&Rule{
-		ID: "C14.R9", Props: []string{"C14", "C10"}, Min: 4,
+		ID: "C14.R9", Props: []string{"C14", "C10", "C04"}, Min: 4,
 		Doc: "static attributes stay in place: no function that edits a node's attribute list moves an attribute to another position — an element of an []html.Attribute is only ever overwritten by a value that does not come from a later, length-derived position of the same kind of list (the swap-remove idiom `a[i] = a[len(a)-1]`), and a rebuilt list is filled in ascending source order. Removing `v-for` from `<li v-for class id title>` must leave `class id title`, not `title class id`",
 		Run: func(p *Prog, c *Ctx) {
 			isAttr := func(t types.Type) bool { return isNamed(t, "golang.org/x/net/html", "Attribute") }
